@@ -52,6 +52,7 @@ func verifyFunction(p *program, fn *ssa.Function, fc *funcContract, safetyOnly b
 	fr.fc = fc
 	x.topFrame = fr
 	x.stack = []*ssa.Function{fn}
+	x.escInfo = escapeAnalysis(fn)
 	for _, prm := range fn.Params {
 		v := x.freshVal("p_"+prm.Name(), prm.Type(), st)
 		fr.vals[prm] = v
@@ -61,12 +62,22 @@ func verifyFunction(p *program, fn *ssa.Function, fc *funcContract, safetyOnly b
 	for _, fv := range fn.FreeVars {
 		v := x.freshVal("fv_"+fv.Name(), fv.Type(), st)
 		fr.vals[fv] = v
+		if _, isPtr := fv.Type().Underlying().(*types.Pointer); isPtr && v.T != "" {
+			// a captured variable is the address of a live variable of the enclosing function: never nil
+			x.assume("true", app(">", v.T, "0"))
+		}
 	}
 	fr.entry = st.clone()
 	env := x.contractEnv(fr, st, nil)
 	if fc != nil {
 		for _, r := range fc.requires {
-			x.assume("true", x.evalBool(env, r.expr))
+			g := x.evalBool(env, r.expr)
+			if r.tag == "lemma" {
+				// `requires [lemma] P`: a consequence of the preceding preconditions, proved here once (so that the body can
+				// use it in this form) and not demanded again at call sites
+				x.oblige(st, "lemma-pre", "", g, p.pos(fn.Pos()), "consequence of the preceding preconditions: "+r.text, false)
+			}
+			x.assume("true", g)
 		}
 	}
 	x.entry = st.clone()
@@ -81,18 +92,42 @@ func verifyFunction(p *program, fn *ssa.Function, fc *funcContract, safetyOnly b
 		post := x.contractEnv(fr, out.st, nil)
 		post.old = x.entry
 		x.bindResults(post, fn.Signature, tupleOf(out.vals, fn.Signature))
+		// `ensures [ghost] forall t in R: ufb_f(key, t) == e`: definition of a fresh spec function on a freshly
+		// allocated key from the final state of this activation (a conservative extension: assumed here so that the
+		// other postconditions can be phrased with it; never assumed at call sites, where only those other
+		// postconditions are visible)
+		for _, e := range fc.ensures {
+			if e.tag == "ghost" {
+				x.trusted["ghost definition (conservative extension on a fresh key) in "+fn.String()+": "+e.text] = true
+				x.assume(out.st.guard, x.evalBool(post, e.expr))
+			}
+		}
 		for k, e := range fc.ensures {
+			if e.tag == "ghost" {
+				continue
+			}
 			if e.tag == "defines" {
 				// `ensures [defines] result == ufb_f(args)`: introduces the name ufb_f for "what this function returns";
 				// sound when the function is deterministic in the stated arguments. Assumed at call sites, never an obligation.
 				x.trusted["definition by result: "+fn.String()+" is a deterministic function of its arguments ("+e.text+")"] = true
 				continue
 			}
-			g := x.evalBool(post, e.expr)
 			tag := fmt.Sprint(k)
 			if e.tag != "" {
 				tag = e.tag
 			}
+			if fc.splitReturns && len(fr.rets) > 1 {
+				// one obligation per return statement (in generation order), each in the state of that return: smaller
+				// queries than the one over the merged exit state
+				for ri, r := range fr.rets {
+					penv := x.contractEnv(fr, r.st, nil)
+					penv.old = x.entry
+					x.bindResults(penv, fn.Signature, tupleOf(r.vals, fn.Signature))
+					x.oblige(r.st, "post", fmt.Sprintf("%s.ret%d", tag, ri), x.evalBool(penv, e.expr), pos, fmt.Sprintf("postcondition at return %d: %s", ri, e.text), false)
+				}
+				continue
+			}
+			g := x.evalBool(post, e.expr)
 			x.oblige(out.st, "post", tag, g, pos, "postcondition: "+e.text, false)
 		}
 		if fc.assigns != nil {
@@ -110,6 +145,13 @@ func verifyFunction(p *program, fn *ssa.Function, fc *funcContract, safetyOnly b
 				x.oblige(g0, "callarg", detail, "false", pos, "the call this clause speaks about does not exist (any more): "+ac.cl.text, false)
 			}
 			ac.seen = false
+		}
+		for _, as := range fc.atstores {
+			if !as.seen {
+				g0 := &state{heap: map[string]string{}, guard: "true"}
+				x.oblige(g0, "storearg", as.field+"."+as.cl.tag, "false", pos, "the store this clause speaks about does not exist (any more): "+as.cl.text, false)
+			}
+			as.seen = false
 		}
 	}
 	if out.noRet && fc != nil && !fc.noreturn && len(fc.ensures) > 0 {
